@@ -249,7 +249,7 @@ def run(tier):
     plain = build.build("plain") + "/bin"
     import gen
     s = gen.standard_scenarios(work, rng, bs=4096)
-    nflip = 60 if tier == "quick" else 1500
+    nflip = 240 if tier == "quick" else 3000
     srcs = []
     for si, comp in ((1, "gzip"), (4, "xz"), (5, "zstd"), (2, "lz4")):
         out = "%s/real_%s.sqfs" % (work, comp)
